@@ -231,7 +231,7 @@ def _chain_cfgs():
             for method in ("threshold", "clonal"):
                 for lay in (["chr1"] * 2, ["chr1"] * 3, ["chr1", "chr1", "chr2"]):
                     c = {"filters": list(fl), "chroms": lay, "method": method}
-                    if len(lay) == 3 and (k >= 2 or "ci" in fl):
+                    if len(lay) == 3 and (k >= 2 or "ci" in fl) and not (set(fl) == {"cn", "ampdel"} and method == "threshold" and lay[-1] == "chr1"):
                         c["tier"] = "thorough"
                     if k == 3 and method == "clonal":
                         c["tier"] = "thorough"
